@@ -11,7 +11,9 @@ def run(c):
               "resolved with both buffers full, connection resets under traffic, the real NewEgress, an idle connection reset followed by a "
               "multi-packet batch = write error on the first packet with exact loss accounting, a one-batch burst of large packets into an "
               "upstream that reads m frames, stalls and resets = write error in the middle / towards the end of the batch with "
-              "duplicate, order and bounded-in-flight-loss checks); scenarios rotate with the trial index. Non-trivial = the case contains a batch timeout "
+              "duplicate, order and bounded-in-flight-loss checks, an upstream that stops reading WITHOUT closing = the sender's write "
+              "deadline (WriteTimeout 3 s, budget 30 s) must end the blocked write, then reconnect and forward); scenarios rotate with "
+              "the trial index. Non-trivial = the case contains a batch timeout "
               "that has to release a partial batch / an idle tail after a partial batch, a failover, a both-buffers-full drop, a write "
               "error or an upstream reset; distinct by op-sequence hash")
     c.assumptions += [
@@ -27,7 +29,8 @@ def run(c):
         "the packet being written when a write fails is not resent by design ('not resend for last') and is counted in WriteErrors",
         "both senders have a resolved address (with a single upstream address the secondary never connects; not part of the quantifier)",
     ]
-    c.prove("SH.Props.C31", extra_files=["SH/Model/Egress.lean"])
+    c.prove("SH.Lemmas.Egress", extra_files=["SH/Model/Egress.lean"])      # helper development (invariants, case analyses)
+    c.prove("SH.Props.C31", extra_files=["SH/Model/Egress.lean", "SH/Lemmas/Egress.lean"])
     drv = c.driver(DRIVER)
     binary = c.go_build(HARNESS)
     if binary and drv:
@@ -49,19 +52,32 @@ def run(c):
 
 META = {
     "level": "proof",
-    "technique": ("Lean 4 theorems over an executable state-machine model of pktBuffer/tcpPool/handler (induction over all interleavings of "
-                  "critical sections) + step-by-step differential correspondence with the real objects + live loopback end-to-end oracle"),
-    "text": ("Kernel-checked for every interleaving of pushes, sender steps, wake-ups, timer callbacks and Close: per sender the accepted "
-             "packets are exactly (already written or skipped-after-write-error) ++ (current read batch) ++ (write buffer), in acceptance "
-             "order, nothing duplicated or lost; concatenated length frames parse back to the bodies; a push is refused iff the pool is "
-             "closed or both buffers hold bufferLen packets, and every refusal is counted and its bytes are in wouldBlockBytes / reports; "
-             "no wake-up is lost: a parked sender whose wait condition is false always has a pending wake-up, so after the batch timeout "
-             "fires the sender leaves swap() and the whole write buffer goes to the next upstream write (at most one timeout period). "
-             "The pinned code's timer callback does not signal: the model variant `.silent` reaches a stuck state (by decide) and the "
-             "real code shows it (oracle sig sender-sleeps-through-batch-timeout)."),
-    "note": ("Partial: real-time bounds are measured, not proved (1 s timer, 10 s budget); sendLoop's reconnect/deadline logic and TCP are "
-             "exercised end-to-end only; interleavings inside a critical section and the Go memory model are trusted. The model is the code "
-             "after the fix: commit 26657431 (= fixes/C31-swap-timeout-wakes-sender.diff); on its parent the check reports "
-             "VIOLATION sig=sender-sleeps-through-batch-timeout with a replay on the real code."),
+    "technique": ("Lean 4 theorems over an executable state-machine model of pktBuffer/tcpPool/handler (+ a write-deadline layer for sendLoop): "
+                  "induction over all interleavings of critical sections; step-by-step differential correspondence with the real objects; "
+                  "live loopback end-to-end oracle for sendLoop"),
+    "text": ("Kernel-checked for every history (pushes, sender steps, wake-ups, batch-timer callbacks, Close, Stats, reports, in any interleaving): "
+             "(order, per sender) accepted = finished (written, or skipped: one per failed write) ++ rest of read batch ++ write buffer, nothing "
+             "duplicated/reordered/lost, |w| <= bufferLen [fifo_per_sender, written_in_acceptance_order]; (order, pool) the global acceptance log is "
+             "partitioned by the sender tags, each sender's log is exactly its projection, so no packet is taken by both senders and every "
+             "connection's writes are a subsequence of the pool's acceptance order across any number of failovers; a failover happens only "
+             "when the primary pointer's buffer is full, leaves a reconnect request for it and swaps the pointers [pool_fifo_across_failover, "
+             "failover_spec]; (framing) every accepted packet is le32(len)++body of a non-empty handler packet and concatenated frames parse "
+             "back [accepted_are_frames, frames_parse_back]; (drops) a push is refused iff the pool is closed or both buffers are full, the "
+             "refusal is counted and its bytes go to wouldBlockBytes [drop_iff_both_full]; the books balance after every history and from any "
+             "reachable state one scheduled loop iteration of the primary sender on a live connection (<= 8 forced moves, <= 2 timer expiries) "
+             "moves every pending byte to `reported` exactly once [drops_counted_and_reported, drops_reported_within_one_loop_iteration]; "
+             "(promptness) no wake-up is lost and after the last push <= 6 forced moves with <= 1 batch-timer expiry hand everything buffered "
+             "to a successful write [never_stuck, flush_within_one_timeout, prompt_even_if_idle_partial]; a failed write gives up exactly "
+             "the packet being written and the callback's return value makes pop resume right after it [write_error_skips_exactly_one, "
+             "callback_contract]; (stalled upstream) with the fixed deadline logic a sender inside pop always has a write deadline armed, "
+             "whose expiry ends a blocked write with exactly one packet given up [stalled_write_released]. Counter-examples by decide for the "
+             "code before each fix: timer callback without Broadcast (stuck after idle tail), deadline never armed (stuck in WriteTo)."),
+    "note": ("Partial. Not proved: real-time lengths (batch timer 1 s, WriteTimeout, write duration) - measured with 10x budgets; sendLoop's "
+             "reconnect loop (ReconnectDelay, DialTimeout, address rotation) and TCP - exercised end to end only; scheduler fairness is the "
+             "hypothesis 'the forced moves happen'; interleavings inside a critical section and the Go memory model are trusted. The write-"
+             "deadline layer (PoolD/stepD) has no step-level correspondence (sendLoop cannot be single-stepped): it is tied to the code by "
+             "live scenario 6 only. The model is the code after fix 26657431 (swap timeout wakes sender) AND after "
+             "fixes/C31-write-deadline.diff (sendLoop arms the write deadline: `writeDeadline.IsZero() || ...`); until the latter is "
+             "committed the check reports VIOLATION sig=stalled-upstream-blocks-sender with a replay on the real code."),
     "design_ref": "DESIGN.md §6 C31",
 }
